@@ -96,3 +96,38 @@ def realistic_workloads(rng, dtype=torch.float64, steps=8):
     for s in (1.0, 1e-4, 1e-8, 1e-12):
         X = X + pp.randn_sim3(4, sigma=s, dtype=dtype)
         X.Log().Exp()
+
+
+def run_repository_tests(ck, monitors, timeout=1500):
+    """Realistic driver: the repository's own test-suite executed with monitors attached (pytest plugin
+    vrf.pytest_plugin in a child interpreter); the plugin's partial result is absorbed into `ck`.
+    Network-dependent tests fail as in the baseline; test outcomes are not judged here, only what the monitors saw."""
+    import json
+    import os
+    import subprocess
+    import sys
+    import tempfile
+    from . import ROOT, REPO
+    with tempfile.TemporaryDirectory(prefix="vrf_suite_") as tmp:
+        import shutil
+        out = os.path.join(tmp, "partial.json")
+        # the tests are copied next to nothing else, so that the package under test is the one VERIF_REPO names
+        # (a scratch copy of the package during self-checks) and not whatever sits beside the tests
+        src = os.path.join(REPO, "tests") if os.path.isdir(os.path.join(REPO, "tests")) else "/repo/tests"
+        shutil.copytree(src, os.path.join(tmp, "tests"), ignore=shutil.ignore_patterns("__pycache__"))
+        env = dict(os.environ, VRF_PLUGIN_OUT=out, VRF_PLUGIN_PID=ck.pid, VRF_PLUGIN_MONITORS=",".join(monitors),
+                   PYTHONPATH=ROOT + os.pathsep + REPO + os.pathsep + os.environ.get("PYTHONPATH", ""), VERIF_REPO=REPO)
+        try:
+            r = subprocess.run([sys.executable, "-m", "pytest", "-q", "-p", "no:cacheprovider", "-p", "vrf.pytest_plugin",
+                                "--timeout=900", "--continue-on-collection-errors", "--rootdir", tmp, "tests"],
+                               cwd=tmp, env=env, capture_output=True, text=True, timeout=timeout)
+        except subprocess.TimeoutExpired:
+            ck.inconclusive_because("repository test-suite under monitors exceeded its watchdog")
+            return
+        if not os.path.exists(out):
+            ck.inconclusive_because("repository test-suite under monitors produced no monitor output: " + (r.stdout + r.stderr)[-300:])
+            return
+        with open(out) as f:
+            ck.absorb(json.load(f))
+        ck.mark("suite/ran_under_monitors")
+        ck.note("suite_summary", (r.stdout.strip().splitlines() or ["?"])[-1][-120:])
